@@ -24,6 +24,7 @@ import (
 	"google.golang.org/grpc/codes"
 	"google.golang.org/grpc/status"
 	"google.golang.org/protobuf/types/known/durationpb"
+	"google.golang.org/protobuf/types/known/emptypb"
 
 	"verifharness/hx"
 	"verifharness/stx"
@@ -53,10 +54,23 @@ func localConfiguration(hierarchical bool) *pb.BlobAccessConfiguration {
 	}
 }
 
-// stackConfiguration builds the configuration named by the #cs line: local | existence.
+// stackConfiguration builds the configuration named by the #cs line: local | existence | fallback.
 func stackConfiguration(wrap string, hierarchical bool) *pb.BlobAccessConfiguration {
 	c := localConfiguration(hierarchical)
-	if wrap == "existence" {
+	if wrap == "fallback" {
+		// the hierarchical store in front of an (empty, never written) flat store, behind an existence cache: what the
+		// cache is keyed by is KeyFormat.Combine of the two backends' formats
+		c = &pb.BlobAccessConfiguration{
+			Backend: &pb.BlobAccessConfiguration_ReadFallback{
+				ReadFallback: &pb.ReadFallbackBlobAccessConfiguration{
+					Primary:    c,
+					Secondary:  localConfiguration(false),
+					Replicator: &pb.BlobReplicatorConfiguration{Mode: &pb.BlobReplicatorConfiguration_Noop{Noop: &emptypb.Empty{}}},
+				},
+			},
+		}
+	}
+	if wrap == "existence" || wrap == "fallback" {
 		c = &pb.BlobAccessConfiguration{
 			Backend: &pb.BlobAccessConfiguration_ExistenceCaching{
 				ExistenceCaching: &pb.ExistenceCachingBlobAccessConfiguration{
@@ -115,7 +129,7 @@ func cfgRun(name string, script []string) []hx.Finding {
 		oracle("a store could not be built from its configuration", err.Error())
 		return found
 	}
-	if hier && info.DigestKeyFormat != digest.KeyWithInstance {
+	if hier && w[1] != "fallback" && info.DigestKeyFormat != digest.KeyWithInstance {
 		oracle("a hierarchical local store announces a digest key format without the instance name (decorators in front of it share state between instance names)",
 			fmt.Sprintf("%s: DigestKeyFormat %v", script[0], info.DigestKeyFormat))
 	}
@@ -217,10 +231,7 @@ func names(m map[string]bool) []string {
 }
 
 func cfgGen(r *hx.Rand) []string {
-	wrap := "local"
-	if r.Chance(2, 3) {
-		wrap = "existence"
-	}
+	wrap := []string{"local", "existence", "existence", "fallback"}[r.Intn(4)]
 	hier := 1
 	if r.Chance(1, 5) {
 		hier = 0
